@@ -103,6 +103,12 @@ One can reverse a captured panic stack trace as follows:
 					addHashedWithPackage(node.Name.Name)
 				case *ast.Field:
 					for _, name := range node.Names {
+						if _, ok := tf.info.ObjectOf(name).(*types.Func); ok {
+							// An interface method; it may have no implementation
+							// in these packages, and shows up in failed type assertions.
+							addHashedWithPackage(name.Name)
+							continue
+						}
 						obj, _ := tf.info.ObjectOf(name).(*types.Var)
 						if obj == nil || !obj.IsField() {
 							continue
